@@ -55,6 +55,8 @@ VARIANTS = {
     "int64": lambda a: _ro(np.array(np.round(a), dtype=np.int64)),
     "float32": lambda a: _ro(np.array(a, dtype=np.float32)),
     "fortran": lambda a: _ro(np.asfortranarray(np.array(a, dtype=float))),
+    "fortran-writable": lambda a: np.asfortranarray(np.array(a, dtype=float)),
+    "transposed-view": lambda a: _ro(np.ascontiguousarray(np.array(a, dtype=float).T).T),
     "strided-view": lambda a: _ro(np.repeat(np.array(a, dtype=float), 2, axis=-1)[..., ::2]),
     "negative-stride": lambda a: _ro(np.array(a, dtype=float)[..., ::-1][..., ::-1]),
     "readonly-view-of-writable": lambda a: _rov(np.array(a, dtype=float)),
@@ -82,7 +84,7 @@ class Oracle:
 def _user_arrays(mk):
     return {
         "A": mk(np.array([[1.0, 2.0, 0.0], [0.0, -1.0, 3.0]])), "b": mk(np.array([4.0, 5.0])), "c": mk(np.array([1.0, -2.0, 0.5])),
-        "ub": mk(np.array([10.0, 9.0, 8.0])), "lb": mk(np.array([-1.0, 0.0, -3.0])), "Q": mk(np.array([[2.0, 0.0, 0.0], [0.0, 1.0, 0.0], [0.0, 0.0, 4.0]])),
+        "ub": mk(np.array([10.0, 9.0, 8.0])), "lb": mk(np.array([-1.0, 0.0, -3.0])), "Q": mk(np.array([[2.0, 0.5, 0.75], [0.5, 1.0, 0.25], [0.75, 0.25, 4.0]])),
         "q": mk(np.array([0.25, 0.25, 0.5])), "s": mk(np.array([1.0, 2.0, 3.0])), "zc": mk(np.array([[1.0, 0.0], [2.0, -1.0], [0.0, 1.0]])),
         "zv": mk(np.array([0.5, -0.5])), "beta": mk(np.array([1.0, 2.0, 1.0])), "w": mk(np.array([[1.0, 2.0, 3.0]])),
     }
